@@ -497,7 +497,11 @@ class ImmutableVersion(dns.zone.Version):
         c.seek(target, False)
         left = c.prev()
         assert left is not None
-        c.next()  # skip over left
+        while left.value().is_glue():
+            # Occluded names are not bounds; the origin is never glue so this ends.
+            left = c.prev()
+            assert left is not None
+        c.seek(target, False)
         while True:
             right = c.next()
             if right is None or not right.value().is_glue():
@@ -513,9 +517,8 @@ class ImmutableVersion(dns.zone.Version):
                 len(origin),
             )
             right_key = None
-        closest_encloser = dns.name.Name(
-            name[-max(left_comparison[2], right_comparison[2]) :]
-        )
+        common = max(left_comparison[2], right_comparison[2])
+        closest_encloser = dns.name.Name(name[len(name) - common :])
         return Bounds(
             name,
             left.key(),
